@@ -70,7 +70,8 @@ def g_lcase(case):
     items = case['items']
     body = g_json(items, table)          # (JList 1%nat [...])
     inner = body[len("(JList 1%nat "):-1]
-    return "{| l_id := 1%%nat; l_items := %s; l_ops := %s |}" % (inner, g_list(ops))
+    return "{| l_id := 1%%nat; l_items := %s; l_ops := %s; l_partial := %s |}" % (
+        inner, g_list(ops), "true" if case.get('mode') == 'partial' else "false")
 
 
 def gen_elem(rng):
@@ -126,4 +127,8 @@ def gen_lcase(rng):
         else:
             op = (k, gen_lpred(rng, items), fresh)
         ops.append(op)
-    return {'items': items, 'ops': ops, 'mode': rng.choice(['custom', 'doc', 'box'])}
+    mode = rng.choice(['custom', 'doc', 'box', 'partial'])
+    if mode == 'partial':
+        # a converter that raises on strings: only operations whose outcome is a single conversion (C19-m12)
+        ops = [o for o in ops if o[0] in ('len', 'get', 'set', 'del', 'in', 'append', 'pop')]
+    return {'items': items, 'ops': ops, 'mode': mode}
